@@ -8,6 +8,7 @@ package main
 import (
 	"fmt"
 	"sync/atomic"
+	"time"
 
 	tally "github.com/uber-go/tally/v4"
 )
@@ -142,6 +143,68 @@ func c07CloserStays(cached bool) string {
 	for n, w := range map[string]int64{"c": 1, "other.d": 3, "r": 5} {
 		if got[n] != w {
 			return fmt.Sprintf("a subscope was closed while other scopes went on recording: counter %q had %d recorded, %d delivered when the root's Close returned", n, w, got[n])
+		}
+	}
+	return ""
+}
+
+// c07Kinds: "everything recorded before Close is delivered exactly once" for every kind of metric, not
+// only counters: a counter, a gauge, a value histogram and a duration histogram of a subscope are
+// recorded on, the subscope is closed and then dropped by a pass (how = 0), by asking for the scope
+// again (1), or by the root's Close (2).
+func c07Kinds(cached bool, how int) string {
+	log := &Log{}
+	opts := tally.ScopeOptions{OmitCardinalityMetrics: true}
+	if cached {
+		opts.CachedReporter = &RecCached{L: log, Caps: caps{true, true}}
+	} else {
+		opts.Reporter = &RecReporter{L: log, Caps: caps{true, true}}
+	}
+	root, closer := tally.VerifNewRootScope(opts, 0, 1)
+	tags := map[string]string{"k": "v"}
+	sub := root.Tagged(tags)
+	sub.Counter("c").Inc(3)
+	sub.Gauge("g").Update(42.5)
+	sub.Histogram("hv", tally.ValueBuckets{1, 2}).RecordValue(1.5)
+	sub.Histogram("hd", tally.DurationBuckets{time.Second}).RecordDuration(time.Millisecond)
+	sub.(interface{ Close() error }).Close()
+	switch how {
+	case 0:
+		tally.VerifReportOnce(root)
+	case 1:
+		root.Tagged(tags)
+	}
+	tally.VerifReportOnce(root)
+	closer.Close()
+	n := map[string]int{}
+	vals := map[string][]int64{}
+	alloc := map[int64]string{}
+	bucket := map[int64]string{}
+	for _, e := range log.Snapshot() {
+		switch e.K {
+		case 1, 2:
+			n[e.S[0]]++
+			vals[e.S[0]] = append(vals[e.S[0]], e.I[0])
+		case 4, 5:
+			n[e.S[0]]++
+			vals[e.S[0]] = append(vals[e.S[0]], e.I[2])
+		case 11, 12, 14:
+			alloc[e.I[0]] = e.S[0]
+		case 24, 25:
+			bucket[e.I[3]] = alloc[e.I[0]]
+		case 21, 22:
+			n[alloc[e.I[0]]]++
+			vals[alloc[e.I[0]]] = append(vals[alloc[e.I[0]]], e.I[1])
+		case 26:
+			n[bucket[e.I[0]]]++
+			vals[bucket[e.I[0]]] = append(vals[bucket[e.I[0]]], e.I[1])
+		}
+	}
+	want := map[string]int64{"c": 3, "g": fbits(42.5), "hv": 1, "hd": 1}
+	for name, w := range want {
+		if n[name] != 1 || vals[name][0] != w {
+			return fmt.Sprintf("a subscope's counter, gauge, value histogram and duration histogram were recorded on once each, the subscope was closed and dropped (%s), then the root was closed: %q was delivered %d times with %v (expected once with %d)",
+				[]string{"by a report pass", "by asking for the scope again", "by the root's Close"}[how], name, n[name], vals[name], w)
 		}
 	}
 	return ""
